@@ -34,7 +34,9 @@ void GhostSMTSolver::newDecisionLevel()
 void GhostSMTSolver::cancelUntil(int level) {
     int prev_dl = decisionLevel();
     SimpSMTSolver::cancelUntil(level);
-    if (prev_dl > level) {
+    // SimpSMTSolver::implied and SimpSMTSolver::asymm open a temporary decision level without
+    // newDecisionLevel(), so there may be no ghost trail limit recorded for the levels being cancelled
+    if (prev_dl > level and level < ghostTrailLim.size()) {
         for (int c = ghostTrail.size() - 1; c >= ghostTrailLim[level]; c--) {
             insertVarOrder(ghostTrail[c]);
         }
